@@ -14,7 +14,8 @@ THEOREMS = [
     "Claripy.Props.C03.suffixof_spec", "Claripy.Props.C03.indexof_spec", "Claripy.Props.C03.toint_spec",
     "Claripy.Props.C03.fromint_spec", "Claripy.Props.C03.eq_spec", "Claripy.Props.C03.ne_spec",
     "Claripy.Props.C03.find_spec", "Claripy.Props.C03.findAt_sound", "Claripy.Props.C03.findAt_least",
-    "Claripy.Props.C03.findAt_complete", "Claripy.Props.C03.fromInt_toInt",
+    "Claripy.Props.C03.findAt_complete", "Claripy.Props.C03.fromInt_toInt", "Claripy.Props.C03.contains_char",
+    "Claripy.Props.C03.replace_char", "Claripy.Props.C03.indexof_char",
     "Claripy.Props.C03.literal_roundtrip", "Claripy.Props.C03.literal_rejects_big", "Claripy.Props.C03.extract_roundtrip",
     "Claripy.Props.C03.literal_unescaped_backslash_wrong", "Claripy.Props.C03.extract_undecoded_wrong",
     "Claripy.Props.C03.python_int_is_not_to_int", "Claripy.Props.C03.regex_prefix_is_not_prefixof",
@@ -76,7 +77,7 @@ def gen_cases(ctx):
     S1 = F.strings_upto(A, 1)
     S2 = F.strings_upto(A, 2)
     S3 = F.strings_upto(A, 3) if ctx.thorough() else None
-    mult = ctx.pick(1, 8)
+    mult = ctx.pick(1, 24)
     cases = []
 
     def rs(maxlen=3):
